@@ -6,8 +6,8 @@ BATCH_BASE = 1_000_000
 
 PLANS = {
     "C20": {
-        "quick": [("hist", 320)],
-        "thorough": [("hist", 12000)],
+        "quick": [("hist", 260), ("threads", 90)],
+        "thorough": [("hist", 10000), ("threads", 4000)],
     },
     "C15": {
         "quick": [("hist", 900)],
@@ -46,6 +46,8 @@ def profile_for(prop, batch, open_findings):
         profile["force"] = {"threads": False, "aborts": False}
     elif batch == "threads":
         profile["force"] = {"threads": True, "aborts": False}
+        if prop == "C20":
+            profile["force"] = {}
     elif batch in ("abort", "abort_enum"):
         profile["force"] = {"threads": False, "aborts": True}
     if batch == "abort_enum":
